@@ -78,7 +78,7 @@ pub fn canary_c05_acc(m: &PackageMetadata)
 '''),
 ] + TAIL
 
-OBLIGATIONS = {('PackageMetadata::' + f): ['C05'] for f in (
+OBLIGATIONS = {('PackageMetadata::' + f): (['C05', 'C06'] if f in ('get_name get_version get_release get_arch get_vendor get_url get_vcs get_license get_packager get_cookie get_summary get_description get_group get_epoch').split() else ['C05']) for f in (
     'get_provides get_requires get_conflicts get_obsoletes get_recommends get_suggests get_enhances get_supplements '
     'get_name get_version get_release get_arch get_vendor get_url get_vcs get_license get_packager get_build_host '
     'get_cookie get_source_rpm get_summary get_description get_group get_epoch get_build_time get_installed_size').split()}
